@@ -102,6 +102,9 @@ def run(ctx):
     if h_result is not None and os.path.exists(os.path.join(ctx.work, "CasesC20H.v")):
         jobs.append(("CasesC20H.v", "c20h_mismatches", "CasesC20H.idx",
                      "readers of the history (every route of eventmon/httpd x the parameters it reads x candidate values, harvested from the package source) between the last event and the save, then a restart: every read-out after a reader ran, the saved file and the restarted recorder = the model's loop with readers that only look (%s reader requests)", "c20h_ncases"))
+    if rec_result is not None and os.path.exists(os.path.join(ctx.work, "CasesC20T.v")):
+        jobs.append(("CasesC20T.v", "c20t_mismatches", "CasesC20T.idx",
+                     "recorder start through New() on a saved history file whose entries are stamped ahead of the clock (seconds .. more than the retention), mixed with recent and expired ones: the history answered = the model's start-up on that file (%s starts)", "c20t_ncases"))
     if rec_result is not None and os.path.exists(os.path.join(ctx.work, "CasesC20F.v")):
         jobs.append(("CasesC20F.v", "c20f_mismatches", "CasesC20F.idx",
                      "recorder save with a crash point or a failing file operation, then a restart through New(): what it comes back with = what the model's save with the same crash / fault index leaves under the history name (%s saves)", "c20f_ncases"))
@@ -113,6 +116,11 @@ def run(ctx):
             if j[1] == "c20r_mismatches":
                 violating(ctx, res, "c20r_violating", "reload", j[2],
                           "property predicate evaluated in Coq on the observed dumps: a save and restart comes back with the entries of the state observed before it that are within the retention, in the same order")
+                violating(ctx, res, "c20r_future_lost", "event-from-future", j[2],
+                          "property predicate evaluated in Coq on the observed dumps: an entry stamped later than the clock of a save-and-restart or of an hourly expiry (so not older than the retention) is still there in the dump taken right after it")
+            if j[1] == "c20t_mismatches":
+                violating(ctx, res, "c20t_violating", "event-from-future", j[2],
+                          "property predicate evaluated in Coq on the observed start: every entry of the history file stamped later than the clock of the starting process is in the history it answers")
             if j[1] == "c20f_mismatches":
                 violating(ctx, res, "c20f_violating", "history-lost", j[2],
                           "property predicate evaluated in Coq on the observed restart: with a previous generation on disk the recorder comes back with it or with the new one")
